@@ -307,6 +307,34 @@ func run(r *hx.Run) error {
 		})
 		r.Count("case:generated")
 	}
+	// 2b. a slice of the C06 bounded-exhaustive sequences (model correspondence on the core vocabulary;
+	// the C06 driver itself is the oracle only)
+	g.flush()
+	{
+		n := 0
+		for _, wh := range [][2]int{{2, 2}, {3, 2}, {3, 3}, {4, 3}} {
+			w, h := wh[0], wh[1]
+			full := emuh.Alphabet(w, h, false)
+			for _, pre := range emuh.Prefixes(w, h) {
+				for _, a := range full {
+					g.jobs = append(g.jobs, emuh.Job{ID: fmt.Sprintf("voc1-%d", n), W: w, H: h, Prefix: pre, Ops: []string{emuh.FixParams(a)}})
+					n++
+					r.Count("case:c06-vocabulary-1")
+				}
+				pairs := 300
+				if r.Thorough {
+					pairs = 4000
+				}
+				for i := 0; i < pairs; i++ {
+					ops := []string{emuh.FixParams(gen.Pick(g.rng, full)), emuh.FixParams(gen.Pick(g.rng, full))}
+					g.jobs = append(g.jobs, emuh.Job{ID: fmt.Sprintf("voc2-%d", n), W: w, H: h, Prefix: pre, Ops: ops})
+					n++
+					r.Count("case:c06-vocabulary-2")
+				}
+				g.flush()
+			}
+		}
+	}
 	// 3. raw bytes through the real parser
 	fuzz := 2000
 	if r.Thorough {
